@@ -34,17 +34,27 @@ def generate(rng, tier):
     env["tree"] = tree
     f1 = gen.pick_formats(rng, 1, 2)
     setup = [scen.cmd("create", "@R", *gen.fmt_args(f1), *(["-n"] if rng.random() < 0.15 else []))]
-    if rng.random() < 0.3:
+    late = []
+    if rng.random() < 0.45:
         setup.append(scen.gen_advance(rng))
-        setup.append(scen.cmd("create", "@R", *gen.fmt_args(f1 if rng.random() < 0.6 else gen.pick_formats(rng, 1, 2))))
+        if rng.random() < 0.6:
+            # files that enter the history in a later generation, possibly first recorded in another format
+            for i in range(rng.randint(1, 2)):
+                name = rng.choice(["", "D1/"]) + "late_%d.bin" % i
+                setup.append({"op": "write", "path": name, "c": gen.unique_content(rng), "fault": "add_file"})
+                late.append(name)
+        setup.append(scen.cmd("create", "@R", *gen.fmt_args(f1 if rng.random() < 0.4 else gen.pick_formats(rng, 1, 2))))
     setup.append(scen.gen_advance(rng))
-    files = gen.tree_files(tree)
+    files = gen.tree_files(tree) + late
     dirs = [""] + gen.tree_dirs(tree)
     renames = []
     taken = set(tree)
     moved = set()
+    taken |= set(late)
     for _ in range(rng.randint(1, 4)):
         cands = [f for f in files if f not in moved]
+        if late and rng.random() < 0.5:
+            cands = [f for f in late if f not in moved] or cands
         if not cands:
             break
         src = rng.choice(cands)
@@ -72,7 +82,7 @@ def generate(rng, tier):
             continue
         taken.add(rel)
         news.append({"op": "write", "path": rel, "c": gen.unique_content(rng), "fault": "add_unrelated_file"})
-    f2 = f1 if rng.random() < 0.5 else gen.pick_formats(rng, 1, 2)
+    f2 = f1 if rng.random() < 0.4 else gen.pick_formats(rng, 1, 2)
     dr = ["create", "@R", "-dr"] + gen.fmt_args(f2) + (["-n"] if rng.random() < 0.2 else [])
     return {"world": env, "ops": setup, "renames": renames, "news": news, "dr": dr, "edit_seed": rng.getrandbits(30)}
 
@@ -200,8 +210,8 @@ def shrink_candidates(sc):
         protected.add(os.path.dirname(n["path"]))
     for tree in gen.shrink_tree_candidates(sc["world"]["tree"], protected):
         yield dict(sc, world=dict(sc["world"], tree=tree))
-    if len(sc["ops"]) > 2:
-        yield dict(sc, ops=sc["ops"][:1] + sc["ops"][-1:])
+    for ops in ddmin_list(sc["ops"][1:]):
+        yield dict(sc, ops=sc["ops"][:1] + ops)
     if "-n" in sc["dr"]:
         yield dict(sc, dr=[a for a in sc["dr"] if a != "-n"])
     for key, val in (("tz", "UTC0"), ("enum_profile", "sorted"), ("read_profile", "full"), ("clock_profile", "calm")):
